@@ -100,6 +100,26 @@ def collect():
     for cat in cats:
         rows.append({"kind": "dtype", "backend": "numpy", "dtype": "structured", "cls": {"kind": "other", "name": str(st)},
                      "cat": cat, "res": check(arr, np.ndarray, cat)})
+    # make_numpy_struct_dtype: an exact match on names, order, dtypes AND layout of the fields - in whatever order the
+    # variants are met in the process (they may compare equal as NumPy dtypes, but they print differently)
+    from jaxtyping import make_numpy_struct_dtype
+    fields = [("first", np.uint8), ("second", np.int32)]
+    variants = {"packed": np.dtype(fields), "aligned": np.dtype(fields, align=True), "record": np.dtype((np.record, np.dtype(fields))),
+                "other": np.dtype([("first", np.uint8), ("third", np.int32)])}
+    for order in (list(variants), list(reversed(list(variants)))):
+        for vn in order:
+            arr = np.zeros(2, dtype=variants[vn])
+            isinstance(arr, cats["Shaped"][np.ndarray, "..."])          # an unrelated earlier check of that dtype
+            for cn, cdt in variants.items():
+                if cn == "record":
+                    continue        # np.record dtypes are not accepted by make_numpy_struct_dtype (only plain structured ones)
+                try:
+                    L = make_numpy_struct_dtype(cdt, "L_" + cn)
+                    r = "T" if isinstance(arr, L[np.ndarray, "..."]) else "F"
+                except Exception as e:  # noqa
+                    r = "Exc:" + type(e).__name__
+                rows.append({"kind": "user", "strings": [list(str(cdt))], "patterns": [], "name": list(str(variants[vn])), "res": r,
+                             "desc": f"struct category {cn} vs array {vn}"})
     # ---- JAX: eager arrays, tracers, PRNG keys
     jtypes = ["bool_", "uint8", "uint16", "uint32", "int8", "int16", "int32", "float16", "float32", "bfloat16", "complex64",
               "float8_e4m3fn", "float8_e5m2", "float8_e4m3b11fnuz", "float8_e4m3fnuz", "float8_e5m2fnuz", "int4", "uint4",
